@@ -80,7 +80,10 @@ def run(ctx) -> Result:
     n = 160 if not ctx.thorough else 3000
     for i in range(n):
         cfg = pipecheck.CONFIGS[i % len(pipecheck.CONFIGS)]
-        hist = pipe.gen_history(rng, n_ops=rng.randint(3, 14), paced=True, burst_prob=rng.choice([0.0, 0.5, 0.9]))
+        if i % 4 == 3:
+            hist = pipe.gen_history_renames(rng, n_renames=rng.randint(2, 5))
+        else:
+            hist = pipe.gen_history(rng, n_ops=rng.randint(3, 14), paced=True, burst_prob=rng.choice([0.0, 0.5, 0.9]))
         one(ctx, res, hist, cfg, batch)
     pipecheck.check_model(res, "C01", batch)
     return res
